@@ -140,6 +140,7 @@ def convert(
     declare_array_visitor = DeclareImplicitArraysVisitor(
         dimmed_var_names=dimmed_array_visitor.dimmed_var_names,
         initialize_vars=initialize_vars,
+        default_str_storage=default_str_storage,
     )
     basic_prog.visit(declare_array_visitor)
     basic_prog.insert_lines_at_beginning(declare_array_visitor.dim_statements)
